@@ -109,7 +109,7 @@ class C20(Prop):
                 if isinstance(lead, dict):
                     k, sig, lseed = lead["samples"], lead["sigma_int16"], lead["seed"]
                 else:
-                    k = rng.choice([2400, 48000, 96000])
+                    k = rng.choice([2400, 48000, 96000, rng.randrange(1000, 100000), rng.randrange(1000, 100000)])
                     sig = rng.choice([30, 300, 3000])
                     lseed = rng.randrange(10 ** 6)
                 lr = __import__("random").Random(lseed)
@@ -196,6 +196,12 @@ class C20(Prop):
         # corpus first: witness of the open finding pipeline:false-sync-lock:repeating-payload (found by search on /repo 489c813)
         self.pipeline(ctx, mod, dem, [("2F", "YF03", 11, 0, {"samples": 48000, "sigma_int16": 30, "seed": 381536}, "square", 20)], "corpus")
         self.pipeline(ctx, mod, dem, cases, "release")
+        # input-length alignment: the same short transmission behind leading noise of every length class modulo the block sizes the programs
+        # might read or process in (steps of 32 samples over 384): link report, end-of-stream flag and whole frames must not depend on it
+        src = "".join(rng.choice(alph) for _ in range(rng.randrange(1, 10)))
+        base = rng.randrange(2000, 9000)
+        align = [(src, "", rng.randrange(16), j % 2, {"samples": base + 32 * j, "sigma_int16": 30, "seed": rng.randrange(10 ** 6)}, "noise", 3) for j in range(12 if quick else 48)]
+        self.pipeline(ctx, mod, dem, align, "alignment")
         if not quick:
             mods, dems = self.programs(san=True)
             self.pipeline(ctx, mods, dems, cases[:6], "sanitized")
